@@ -1,6 +1,9 @@
 import EaselModel.Dist.Num
-/-! Hand model (kind H) of the bracketing + bisection inverses `esl_sxp_invcdf`, `esl_hxp_invcdf`, `esl_gam_invcdf`,
-    `esl_mixgev_invcdf` (the cdf is a parameter: the translated `esl_sxp_cdf` / `esl_gam_cdf`, resp. the mixture models).
+/-! Generic form of the bracketing + bisection inverses `esl_sxp_invcdf`, `esl_hxp_invcdf`, `esl_gam_invcdf`,
+    `esl_mixgev_invcdf`, with the cdf as a parameter.  Since round 3 the four C functions themselves are TRANSLATED on
+    every run (`Generated/Dist.lean`: `esl_*_invcdf`, `…_loop<k>`, `…_exit<k>`); `Dist/BisectGen.lean` proves that each
+    generated function IS the instance of these definitions at its own cdf, so the theorems proved once here
+    (`BisectThm`, `BisectTerm`) are theorems about the current C source.
     Each C `do { … } while (c)` is a function recursing on fuel (`none` = fuel exhausted: the C loop would still be
     running); statements and tests in the C order.  Core Lean only. -/
 namespace EaselModel.Dist.Bisect
@@ -54,22 +57,25 @@ def bisectMix (cdf : α → α) (p : α) : Nat → α → α → Option α
       (if 1.0e-6 * ((Num.fabs xm + Num.fabs x2) + 1.0e-9) < x2 - xm then bisectMix cdf p n xm x2 else some ((xm + x2) / 2.0))
     else some xm
 
-def fuel : Nat := 5000
+/-- iteration allowance per loop used by the driver.  In binary64 a bracketing loop cannot run more than ~2100 times
+    (its reach doubles or triples from at least the smallest subnormal until `cdf(+inf) = 1 ≥ p`), a bisection no more than
+    ~2100 times (the bracket halves until the midpoint equals an endpoint); `BisectTerm` has the real-number bounds. -/
+def defaultFuel : Nat := 5000
 
 /-- `esl_sxp_invcdf` / `esl_hxp_invcdf`: `x1 = mu; x2 = mu + 1.;` bracket right, bisect -/
-def invcdfRight (cdf : α → α) (p mu : α) : Option α :=
+def invcdfRight (fuel : Nat) (cdf : α → α) (p mu : α) : Option α :=
   match bracketRight cdf p mu fuel (mu + 1.0) with
   | none => none
   | some x2 => bisect cdf p mu fuel mu x2
 
 /-- `esl_gam_invcdf`: `x1 = mu; x2 = tau/lambda;` bracket (relative), `x2 += mu;` bisect -/
-def invcdfGam (cdf : α → α) (p mu lambda tau : α) : Option α :=
+def invcdfGam (fuel : Nat) (cdf : α → α) (p mu lambda tau : α) : Option α :=
   match bracketGam cdf p mu fuel (tau / lambda) with
   | none => none
   | some x2 => bisect cdf p mu fuel mu (x2 + mu)
 
 /-- `esl_mixgev_invcdf`: `x2 = min mu_k; x1 = x2 - 1.;` bracket left, bracket right, bisect -/
-def invcdfMix (cdf : α → α) (p mumin : α) : Option α :=
+def invcdfMix (fuel : Nat) (cdf : α → α) (p mumin : α) : Option α :=
   match bracketLeft cdf p mumin fuel (mumin - 1.0) with
   | none => none
   | some x1 =>
